@@ -207,6 +207,8 @@ func blsMemo(mc string) {
 	rep("func (sig *Sign) VerifyByte(", "func (sig *Sign) verifyByteRaw(")
 	rep("func (sig *Sign) FastAggregateVerify(", "func (sig *Sign) fastAggregateVerifyRaw(")
 	rep("func (sec *SecretKey) SignByte(", "func (sec *SecretKey) signByteRaw(")
+	rep("func (sig *Sign) Deserialize(", "func (sig *Sign) deserializeRaw(")
+	rep("func (pub *PublicKey) Deserialize(", "func (pub *PublicKey) deserializeRaw(")
 	rep("\t\"io\"\n", "\t\"io\"\n\t\"sync\"\n")
 	s += `
 // ---- verif overlay: pure-function memoisation of signing and verification ----
@@ -250,6 +252,41 @@ func (sig *Sign) FastAggregateVerify(pubVec []PublicKey, msg []byte) bool {
 	r := sig.fastAggregateVerifyRaw(pubVec, msg)
 	verifMemo.Store(k, r)
 	return r
+}
+
+type verifDeser struct {
+	raw string
+	err error
+}
+
+// Deserialize -- (memoised: point decompression + subgroup check is a pure function of buf)
+func (sig *Sign) Deserialize(buf []byte) error {
+	k := "DS" + string(buf)
+	if v, ok := verifMemo.Load(k); ok {
+		d := v.(verifDeser)
+		if d.err == nil {
+			copy((*[unsafe.Sizeof(sig.v)]byte)(unsafe.Pointer(&sig.v))[:], d.raw)
+		}
+		return d.err
+	}
+	err := sig.deserializeRaw(buf)
+	verifMemo.Store(k, verifDeser{verifRawSig(sig), err})
+	return err
+}
+
+// Deserialize --
+func (pub *PublicKey) Deserialize(buf []byte) error {
+	k := "DP" + string(buf)
+	if v, ok := verifMemo.Load(k); ok {
+		d := v.(verifDeser)
+		if d.err == nil {
+			copy((*[unsafe.Sizeof(pub.v)]byte)(unsafe.Pointer(&pub.v))[:], d.raw)
+		}
+		return d.err
+	}
+	err := pub.deserializeRaw(buf)
+	verifMemo.Store(k, verifDeser{verifRawPub(pub), err})
+	return err
 }
 
 // SignByte --
